@@ -164,7 +164,8 @@ Step ==
     [] e.ev = "ret" -> /\ phase' = "idle"
                        \* failures count SendCommand errors; Close() also turns a non-normal completion code into an
                        \* error (ValidateResponse), which is not a command failure (v2sessionless.go: SendCommand comment)
-                       /\ mcall' = (IF ~Has(e, "err") THEN mcall
+                       /\ mcall' = (IF Has(e, "noTarget") THEN NoCall           \* nothing was called (e.g. no connection to close after a refused dial)
+                                    ELSE IF ~Has(e, "err") THEN mcall
                                     ELSE IF mcall.kind = "dial" THEN [mcall EXCEPT !.kind = IF e.err THEN "dialfail" ELSE "dial"]
                                     ELSE IF mcall.kind = "close" /\ mcall.codes # <<>> /\ mcall.codes[Len(mcall.codes)] \notin {192, 195}
                                          THEN [mcall EXCEPT !.err = FALSE]
